@@ -123,10 +123,11 @@ func (w *dnsWorld) c18Known(name int, qtype uint16) string {
 			res = "maybe" // empty answers: no demand
 			continue
 		}
+		odMax, _ := e.originalDeadlineMax() // answers mixing TTLs: between the shortest and the longest nothing is demanded
 		switch {
 		case !e.removed && now < od-2*time.Second:
 			return "yes"
-		case now < od+2*time.Second:
+		case now < odMax+2*time.Second:
 			res = "maybe" // near the boundary, or removed early (eviction / reject drops the knowledge)
 		}
 	}
